@@ -4,6 +4,7 @@ import (
 	"errors"
 	"fmt"
 	"math/rand"
+	"sort"
 	"strconv"
 	"strings"
 	"sync"
@@ -141,6 +142,58 @@ func (s *Session) execFlush(slot, rslot int, seed int64, fails map[int]bool) (ob
 	return fmt.Sprintf("ok %s %d %d %d %s", link, root.Size, root.Height, root.BranchFactor, tr), viol
 }
 
+// execTwoStore: the contents of a tree are persisted once more into a SECOND store (another URL
+// prefix) that shares this session's node cache; every node of that root must be in the second
+// store — none may be skipped because the cache has seen it under the first store.
+var twoStoreSeq int
+
+func (s *Session) execTwoStore(slot int) (obs, viol string) {
+	o := s.Oracle[slot]
+	if o == nil {
+		return "bad-slot", ""
+	}
+	if s.Cache == nil {
+		return "ok", ""
+	}
+	twoStoreSeq++
+	st2 := NewRecStore(fmt.Sprintf("rec-other-%d", twoStoreSeq)) // a prefix names a store: a fresh one each time
+	cfg := s.remoteConfig()
+	cfg.StoreImmutablePartsWith = st2
+	m, err := mast.NewRoot(createOpts(s.Cfg)).LoadMast(s.ctx, cfg)
+	if err != nil {
+		return "ok", "second store: new tree failed: " + err.Error()
+	}
+	keys := make([]uint64, 0, len(o))
+	for k := range o {
+		keys = append(keys, k)
+	}
+	sort.Slice(keys, func(i, j int) bool { return keys[i] < keys[j] })
+	for _, k := range keys {
+		if err := m.Insert(s.ctx, s.Cfg.Key(k), s.Cfg.Val(o[k])); err != nil {
+			return "ok", "second store: insert failed: " + err.Error()
+		}
+	}
+	root, err := m.MakeRoot(s.ctx)
+	if err != nil {
+		return "ok", "second store: MakeRoot failed: " + err.Error()
+	}
+	link := ""
+	if root.Link != nil {
+		link = *root.Link
+	}
+	old := s.Store
+	s.Store = st2
+	_, n, v := s.PersistedShape(link, int(root.Height))
+	s.Store = old
+	if v != "" {
+		return "ok", "persisted into a second store that shares the node cache, the root is not complete there: " + v
+	}
+	if n != len(o) {
+		return "ok", fmt.Sprintf("second store holds %d entries under the root, %d expected", n, len(o))
+	}
+	return "ok", ""
+}
+
 func parseFails(s string) map[int]bool {
 	out := map[int]bool{}
 	if s == "-" {
@@ -201,6 +254,9 @@ func genFlushCase(r *rand.Rand, cfg Cfg, big bool) Case {
 			nroot++
 		}
 		ops = append(ops, fmt.Sprintf("flush 0 %d %d -", nroot, r.Int63n(1<<30)), fmt.Sprintf("pshape %d", nroot), "stat 0")
+		if cfg.Cache != "none" && r.Intn(2) == 0 {
+			ops = append(ops, "twostore 0")
+		}
 		if r.Intn(2) == 0 {
 			ops = append(ops, fmt.Sprintf("load %d 0", nroot), "iter 0")
 		}
